@@ -547,7 +547,7 @@ def rx_9(ctx, rep):
                     except AnalysisError:
                         v = None
                     chars = v if isinstance(v, str) else None
-            if chars is not None and chars.strip() != chars and _strip_feeds_position(g, n):
+            if chars is not None and chars.strip() != chars and not set(chars) <= {'\r', '\n'} and _strip_feeds_position(g, n):
                 n_strip += 1
                 d = rx.equivalent(nws, rx.compile_nfa('[%s]*' % ''.join(_re.escape(c) for c in sorted(set(chars)))))
                 rep.ob('RX-9', TOK, g.qual, norm(n), d is None,
